@@ -197,8 +197,19 @@ func collectThenSort(rg *ssa.Range) (string, bool) {
 			full = o.String()
 		}
 		switch {
-		case strings.HasPrefix(full, "slices.SortFunc"), strings.HasPrefix(full, "slices.Sort"), full == "sort.Slice", full == "sort.Strings", full == "sort.Ints", strings.HasPrefix(full, "slices.SortStableFunc"), full == "sort.SliceStable":
-			return "collect-then-sort (" + full + "); assumes the comparator is a strict total order on the collected elements", true
+		case strings.HasPrefix(full, "slices.SortFunc"), strings.HasPrefix(full, "slices.SortStableFunc"), full == "sort.Slice", full == "sort.SliceStable":
+			// the comparator must be the comparison of one key of the two elements: that is
+			// a strict weak order, total when the keys are unique (names, ids, indices)
+			if len(c.Call.Args) < 2 {
+				return "sort without comparator argument", false
+			}
+			why, ok := keyComparator(c.Call.Args[1])
+			if !ok {
+				return "the comparator of " + full + " is not the comparison of one key of its two arguments (" + why + ")", false
+			}
+			return "collect-then-sort (" + full + " by " + why + "); assumes that key is unique among the collected elements", true
+		case strings.HasPrefix(full, "slices.Sort"), full == "sort.Strings", full == "sort.Ints":
+			return "collect-then-sort (" + full + ", natural order)", true
 		}
 		return "the loop is followed by " + full + ", not by a sort", false
 	}
@@ -257,4 +268,182 @@ func (r *checkRun) genGlobals() ([]*StaticResult, error) {
 
 func parserParseFile(fset *token.FileSet, path string) (*ast.File, error) {
 	return goparser.ParseFile(fset, path, nil, 0)
+}
+
+// keyComparator recognises a comparator that only compares one key of its arguments:
+//
+//	func(a, b T) int    { return cmp.Compare(key(a), key(b)) }
+//	func(i, j int) bool { return key(s[i]) < key(s[j]) }
+//
+// where key is the same chain of field selections, loads, indexing of one captured slice
+// and calls on both sides.
+func keyComparator(v ssa.Value) (string, bool) {
+	var fn *ssa.Function
+	switch x := v.(type) {
+	case *ssa.MakeClosure:
+		fn, _ = x.Fn.(*ssa.Function)
+	case *ssa.Function:
+		fn = x
+	}
+	if fn == nil {
+		return "comparator is not a function literal", false
+	}
+	if len(fn.Params) != 2 {
+		return "comparator does not take two arguments", false
+	}
+	var ret *ssa.Return
+	nret := 0
+	for _, b := range fn.Blocks {
+		for _, ins := range b.Instrs {
+			if r, ok := ins.(*ssa.Return); ok {
+				ret = r
+				nret++
+			}
+			if _, ok := ins.(*ssa.If); ok {
+				return "comparator branches", false
+			}
+		}
+	}
+	if nret != 1 || len(ret.Results) != 1 {
+		return "comparator has several return points", false
+	}
+	var x, y ssa.Value
+	switch r := throughLocals(ret.Results[0]).(type) {
+	case *ssa.Call:
+		callee := r.Call.StaticCallee()
+		if callee == nil || len(r.Call.Args) != 2 {
+			return "comparator returns an unknown call", false
+		}
+		name := callee.String()
+		if o := callee.Origin(); o != nil {
+			name = o.String()
+		}
+		if name != "cmp.Compare" && name != "strings.Compare" {
+			return "comparator returns " + name, false
+		}
+		x, y = r.Call.Args[0], r.Call.Args[1]
+	case *ssa.BinOp:
+		if r.Op != token.LSS && r.Op != token.GTR {
+			return "comparator is not < or >", false
+		}
+		x, y = r.X, r.Y
+	default:
+		return "comparator does not return a comparison", false
+	}
+	sx, sy := keyShape(x, fn.Params[0], 0), keyShape(y, fn.Params[1], 0)
+	if sx == "" || sx != sy {
+		return fmt.Sprintf("the two sides differ: %q vs %q", sx, sy), false
+	}
+	return "key " + sx, true
+}
+
+// keyShape renders the expression tree of v with the parameter p written as "_".
+func keyShape(v ssa.Value, p *ssa.Parameter, depth int) string {
+	if depth > 8 {
+		return ""
+	}
+	switch x := v.(type) {
+	case *ssa.Parameter:
+		if x == p {
+			return "_"
+		}
+		return ""
+	case *ssa.UnOp:
+		if x.Op != token.MUL {
+			return ""
+		}
+		if a, ok := x.X.(*ssa.Alloc); ok {
+			// naive form: parameters are spilled to locals; find the stored value
+			for _, ref := range *a.Referrers() {
+				if st, ok := ref.(*ssa.Store); ok && st.Addr == a {
+					return keyShape(st.Val, p, depth+1)
+				}
+			}
+			return ""
+		}
+		if fv, ok := x.X.(*ssa.FreeVar); ok {
+			return "$" + fv.Name()
+		}
+		in := keyShape(x.X, p, depth+1)
+		if in == "" {
+			return ""
+		}
+		return "*" + in
+	case *ssa.FieldAddr:
+		in := keyShape(x.X, p, depth+1)
+		if in == "" {
+			return ""
+		}
+		return fmt.Sprintf("%s.f%d", in, x.Field)
+	case *ssa.Field:
+		in := keyShape(x.X, p, depth+1)
+		if in == "" {
+			return ""
+		}
+		return fmt.Sprintf("%s.f%d", in, x.Field)
+	case *ssa.IndexAddr:
+		b, i := keyShape(x.X, p, depth+1), keyShape(x.Index, p, depth+1)
+		if b == "" || i == "" {
+			return ""
+		}
+		return b + "[" + i + "]"
+	case *ssa.Call:
+		name := ""
+		var args []ssa.Value
+		if x.Call.IsInvoke() {
+			name = x.Call.Method.Name()
+			args = append([]ssa.Value{x.Call.Value}, x.Call.Args...)
+		} else if callee := x.Call.StaticCallee(); callee != nil {
+			name = callee.Name()
+			args = x.Call.Args
+		} else {
+			return ""
+		}
+		var parts []string
+		for _, a := range args {
+			s := keyShape(a, p, depth+1)
+			if s == "" {
+				return ""
+			}
+			parts = append(parts, s)
+		}
+		return name + "(" + strings.Join(parts, ",") + ")"
+	case *ssa.Convert:
+		return keyShape(x.X, p, depth+1)
+	case *ssa.ChangeType:
+		return keyShape(x.X, p, depth+1)
+	case *ssa.MakeInterface:
+		return keyShape(x.X, p, depth+1)
+	case *ssa.Const:
+		return x.Value.String()
+	}
+	return ""
+}
+
+// throughLocals follows loads of locals that are stored exactly once (naive-form SSA
+// spills every value to a local).
+func throughLocals(v ssa.Value) ssa.Value {
+	for depth := 0; depth < 6; depth++ {
+		u, ok := v.(*ssa.UnOp)
+		if !ok || u.Op != token.MUL {
+			return v
+		}
+		a, ok := u.X.(*ssa.Alloc)
+		if !ok {
+			return v
+		}
+		var stored ssa.Value
+		n := 0
+		for _, ref := range *a.Referrers() {
+			if st, ok := ref.(*ssa.Store); ok && st.Addr == a {
+				stored = st.Val
+				n++
+			}
+		}
+		if n != 1 {
+			return v
+		}
+		v = stored
+	}
+	return v
 }
